@@ -180,9 +180,10 @@ def rule_work(ctx, M):
         probs.append("expected exactly one fetch_add and one push in send")
     else:
         p = pushes[0]
-        arg = p.arg(1)
-        okp = arg is not None and arg[0] == "call" and arg[1] == ("TryForEachFut", "new") and len(arg[2]) >= 3 and arg[2][1] == cupvar(1) and \
-            arg[2][0][0] == "call" and arg[2][0][1][1] == "clone" and arg[2][0][2][0] == cfield("f")
+        sv = flow.struct_view(M, p.arg(1), "TryForEachFut")
+        okp = sv is not None and sv.get("fut_t") == ("agg", ("Option", "Some"), (cupvar(1),)) and sv.get("f") is not None and \
+            sv["f"][0] == "call" and sv["f"][1][1] == "clone" and sv["f"][2][0] == cfield("f") and \
+            sv.get("fut_b") == ("agg", ("Option", "None"), ()) and sv.get("done") == ("const", 0)
         if not okp:
             probs.append("the pushed future is not TryForEachFut::new(f.clone(), <the given item future>, count.clone())")
         # every return that is not Break is preceded by the push
